@@ -94,8 +94,8 @@ fn blockquote_slice(renderer: &mut SubRenderer, size_estimate: SizeEstimate) -> 
     ensures //@w
         // the content is rendered at the width minus the DISPLAY width of whatever the decorator returned (C16, C07) … //@w
         r matches Ok(p) ==> Some(p.1.width as int) == wm_spec(old(renderer).width, old(renderer).options.allow_width_overflow, sw(p.0@) as usize, (size_estimate.min_width - sw(p.0@)) as usize), //@w @C16 @C07 #quote_content_width
-        // … so prefix + content fit the parent (C02) unless overflow is allowed or the parent is narrower than the prefix //@w
-        r matches Ok(p) ==> sw(p.0@) + p.1.width <= old(renderer).width || old(renderer).options.allow_width_overflow || old(renderer).width < sw(p.0@), //@w @C02 @C16 #quote_fits_parent
+        // … so prefix + content fit the parent (C02) unless overflow is allowed //@w
+        r matches Ok(p) ==> sw(p.0@) + p.1.width <= old(renderer).width || old(renderer).options.allow_width_overflow, //@w @C02 @C16 #quote_fits_parent
         old(renderer).options.allow_width_overflow ==> r.is_ok(), //@w @C11 #quote_overflow_ok
 { //@w
             let prefix = renderer.quote_prefix();
@@ -118,7 +118,7 @@ fn header_slice(renderer: &mut SubRenderer, size_estimate: SizeEstimate, level: 
     ensures //@w
         // content of a heading is rendered at width minus the display width of the decorator's heading marker (C16, C07) //@w
         r matches Ok(p) ==> Some(p.1.width as int) == wm_spec(old(renderer).width, old(renderer).options.allow_width_overflow, sw(p.0@) as usize, (if size_estimate.min_width >= sw(p.0@) { size_estimate.min_width - sw(p.0@) } else { 0 }) as usize), //@w @C16 @C07 #heading_content_width
-        r matches Ok(p) ==> sw(p.0@) + p.1.width <= old(renderer).width || old(renderer).options.allow_width_overflow || old(renderer).width < sw(p.0@) || size_estimate.min_width > old(renderer).width, //@w @C02 @C16 #heading_fits_parent
+        r matches Ok(p) ==> sw(p.0@) + p.1.width <= old(renderer).width || old(renderer).options.allow_width_overflow, //@w @C02 @C16 #heading_fits_parent
         old(renderer).options.allow_width_overflow ==> r.is_ok(), //@w @C11
 { //@w]
             let prefix = renderer.header_prefix(level);
